@@ -16,6 +16,7 @@ class Ctx:
         self.obs = []          # obligations
         self.counts = {}       # rule -> instances
         self.notes = []
+        self.floors = []
         self.assumptions = []
         self._bodies = {}
 
@@ -40,9 +41,16 @@ class Ctx:
 
     def floor(self, rule, minimum):
         """fail closed when a rule matched fewer instances than were confirmed by hand"""
-        n = self.counts.get(rule, 0)
-        if n < minimum:
-            raise F.InfraError(f"rule {rule}: only {n} instances matched, floor is {minimum} (anchor drift? a rule that matches nothing passes vacuously)")
+        self.floors.append((rule, minimum))
+
+    def check_floors(self):
+        """deferred: a reported violation takes precedence over a missing-instance alarm"""
+        if any(not o["ok"] for o in self.obs):
+            return
+        for rule, minimum in self.floors:
+            n = self.counts.get(rule, 0)
+            if n < minimum:
+                raise F.InfraError(f"rule {rule}: only {n} instances matched, floor is {minimum} (anchor drift? a rule that matches nothing passes vacuously)")
 
     def note(self, s):
         self.notes.append(s)
@@ -71,6 +79,7 @@ def run_property(pid, tier, seed):
         fx, cached, secs = F.load(config)
         ctx = Ctx(pid, fx, tier, config)
         mod.check(ctx)
+        ctx.check_floors()
         all_obs += ctx.obs; notes += [f"[{config}] {n}" for n in ctx.notes]
         for a in ctx.assumptions:
             if a not in assumptions: assumptions.append(a)
